@@ -8,6 +8,7 @@
                                 alphabet AN of length 0..MAXN; stdout: 2 chars per pair <model><spec>, no separators
      filter AP MINP MAXP AN MAXN
                                 per pattern: set_filter / spec_filter over the set of all names; 2 chars per (pattern,name)
+     filterlines                see below (large sets, one set per line)
    model chars: M match, N no match, B bad pattern, P panic site reached, F fuel exhausted; spec chars: M N B *)
 open Glob
 let rec pos_of_int i = if i = 1 then XH else if i land 1 = 0 then XO (pos_of_int (i lsr 1)) else XI (pos_of_int (i lsr 1))
@@ -78,4 +79,22 @@ let () =
         Buffer.add_char buf (if List.mem n fs then 'M' else 'N')) names;
       if Buffer.length buf > 60000 then flush_buf ());
     flush_buf ()
-  | _ -> prerr_endline "usage: glob_driver lines | enum ... | filter ..."; exit 2
+  | _ :: "filterlines" :: _ ->
+    (* stdin: "<hex pattern> <hex name1> <hex name2> ..." ; stdout per line: 2 chars per name
+       <member of set_filter><member of spec_filter>.  filter keeps the order, so membership is read off by
+       walking the result next to the input (names are distinct) *)
+    (try while true do
+      let line = input_line stdin in
+      match String.split_on_char ' ' line with
+      | p :: ns when ns <> [] ->
+        let p = of_hex p and names = List.map of_hex ns in
+        let fm = ref (set_filter names p) and fs = ref (spec_filter names p) in
+        let b = Buffer.create (2 * List.length names + 1) in
+        List.iter (fun n ->
+          (match !fm with x :: r when x = n -> fm := r; Buffer.add_char b 'M' | _ -> Buffer.add_char b 'N');
+          (match !fs with x :: r when x = n -> fs := r; Buffer.add_char b 'M' | _ -> Buffer.add_char b 'N')) names;
+        if !fm <> [] || !fs <> [] then Buffer.add_char b '!';
+        print_endline (Buffer.contents b)
+      | _ -> print_endline ""
+    done with End_of_file -> ())
+  | _ -> prerr_endline "usage: glob_driver lines | enum ... | filter ... | filterlines"; exit 2
